@@ -391,6 +391,12 @@ class Harness:
             p.paused = False
             if self.push_writes_on_resume and not self.draining and self.sim.draw_bool(0.5, "write_on_resume"):
                 self.do_write("push%d" % p.pid)
+                if self.producer is p and self.sim.draw_bool(0.15, "push_finish_in_resume"):
+                    # ... and finishes: unregisters (and perhaps closes) inside that same resumeProducing() call
+                    self.sim.probe("push_final_chunk_and_unregister_in_one_call")
+                    self.do_unregister()
+                    if self.sim.draw_bool(0.5, "lose_after_finish"):
+                        self.do_lose()
         else:
             if not self.in_register:
                 sim.probe("pull_resumed_from_doWrite")
@@ -399,6 +405,10 @@ class Harness:
                                         "pull producer asked for data with %d bytes still buffered" % self.backlog)
             # a pull producer produces once per resume, or finishes
             if self.draining or sim.draw_bool(self.pull_finish_p, "pull_finish"):
+                if not self.draining and sim.draw_bool(0.4, "final_chunk"):
+                    # the producer writes its last chunk and unregisters within the same resumeProducing() call
+                    sim.probe("pull_final_chunk_and_unregister_in_one_call")
+                    self.do_write("pull%d" % p.pid)
                 sim.event("producer", p.pid, "finish")
                 p.current = False
                 self.producer = None
